@@ -110,169 +110,209 @@ theorem propagate_eq (cfg : RedisCfg) (now : Nat) (st : Store) (c : Cmd) :
       else if lower c.name == wRestore then propRestore cfg now st c
       else propOther cfg now st c := rfl
 
-/-- every command `propagate` emits has one of the shapes of `EffShape` -/
-theorem propagate_shape (cfg : RedisCfg) (now : Nat) (st : Store) (c : Cmd) :
-    ∀ e ∈ (propagate cfg now st c).2, EffShape cfg c e := by
-  rw [propagate_eq]
+theorem ite_snd_forall {p : Prop} [Decidable p] (a b : Store × List Cmd) (P : Cmd → Prop)
+    (ha : ∀ e ∈ a.2, P e) (hb : ∀ e ∈ b.2, P e) : ∀ e ∈ (if p then a else b).2, P e := by
+  split <;> assumption
+
+theorem propSet_shape (cfg : RedisCfg) (now : Nat) (st : Store) (c : Cmd) :
+    ∀ e ∈ (propSet cfg now st c).2, EffShape cfg c e := by
+  unfold propSet
   split
-  · -- SET
-    unfold propSet
+  · rename_i k v opts hargs
+    simp only
     split
-    · rename_i k v opts hargs
-      simp only
-      split
-      · intro e he; cases he
-      · have hk : k ∈ c.args := by rw [hargs]; simp
-        have hpre := lazyExpire_shape cfg now st c k hk
-        split
-        · exact hpre
-        · split
-          · intro e he
-            rcases List.mem_append.mp he with h | h
-            · exact hpre e h
-            · rw [List.mem_singleton.mp h]
-              split
-              · exact .setPxat k v opts _ hargs
-              · exact .setPlain k v opts hargs
-          · intro e he
-            rcases List.mem_append.mp he with h | h
-            · exact hpre e h
-            · rw [List.mem_singleton.mp h]
-              exact .setPlain k v opts hargs
     · intro e he; cases he
-  · split
-    · -- DEL / UNLINK
-      unfold propDel
-      simp only
-      have hpre := lazyExpireAll_shape cfg now c c.args st (fun k hk => hk)
+    · have hk : k ∈ c.args := by rw [hargs]; simp
+      have hpre := lazyExpire_shape cfg now st c k hk
+      split
+      · exact hpre
+      · split
+        · intro e he
+          rcases List.mem_append.mp he with h | h
+          · exact hpre e h
+          · rw [List.mem_singleton.mp h]
+            split
+            · exact .setPxat k v opts _ hargs
+            · exact .setPlain k v opts hargs
+        · intro e he
+          rcases List.mem_append.mp he with h | h
+          · exact hpre e h
+          · rw [List.mem_singleton.mp h]
+            exact .setPlain k v opts hargs
+  · intro e he; cases he
+
+theorem propDel_shape (cfg : RedisCfg) (now : Nat) (st : Store) (c : Cmd) :
+    ∀ e ∈ (propDel cfg now st c).2, EffShape cfg c e := by
+  unfold propDel
+  simp only
+  have hpre := lazyExpireAll_shape cfg now c c.args st (fun k hk => hk)
+  split
+  · exact hpre
+  · intro e he
+    rcases List.mem_append.mp he with h | h
+    · exact hpre e h
+    · rw [List.mem_singleton.mp h]; exact .same
+
+theorem propExpire_shape (cfg : RedisCfg) (now : Nat) (st : Store) (n : Bytes) (c : Cmd) :
+    ∀ e ∈ (propExpire cfg now st n c).2, EffShape cfg c e := by
+  unfold propExpire
+  split
+  · rename_i k t hargs
+    have hk : k ∈ c.args := by rw [hargs]; simp
+    have hpre := lazyExpire_shape cfg now st c k hk
+    split
+    · intro e he; cases he
+    · simp only
+      split
+      · exact hpre
+      · apply ite_snd_forall
+        · intro e he
+          rcases List.mem_append.mp he with h | h
+          · exact hpre e h
+          · rw [List.mem_singleton.mp h]; exact .del k hk
+        · intro e he
+          rcases List.mem_append.mp he with h | h
+          · exact hpre e h
+          · rw [List.mem_singleton.mp h]; exact .pexpireat k _ hk
+  · intro e he
+    rw [List.mem_singleton.mp he]; exact .same
+
+theorem propPersist_shape (cfg : RedisCfg) (now : Nat) (st : Store) (c : Cmd) :
+    ∀ e ∈ (propPersist cfg now st c).2, EffShape cfg c e := by
+  unfold propPersist
+  split
+  · rename_i k hargs
+    have hk : k ∈ c.args := by rw [hargs]; simp
+    have hpre := lazyExpire_shape cfg now st c k hk
+    simp only
+    split
+    · split
+      · intro e he
+        rcases List.mem_append.mp he with h | h
+        · exact hpre e h
+        · rw [List.mem_singleton.mp h]; exact .same
+      · exact hpre
+    · exact hpre
+  · intro e he; cases he
+
+theorem propAdd_shape (cfg : RedisCfg) (now : Nat) (st : Store) (kind : Kind)
+    (members : List Bytes → List Bytes) (c : Cmd) :
+    ∀ e ∈ (propAdd cfg now st kind members c).2, EffShape cfg c e := by
+  unfold propAdd
+  split
+  · rename_i k rest hargs
+    have hk : k ∈ c.args := by rw [hargs]; simp
+    have hpre := lazyExpire_shape cfg now st c k hk
+    simp only
+    split
+    · exact hpre
+    · intro e he
+      rcases List.mem_append.mp he with h | h
+      · exact hpre e h
+      · rw [List.mem_singleton.mp h]; exact .same
+  · intro e he; cases he
+
+theorem propRem_shape (cfg : RedisCfg) (now : Nat) (st : Store) (kind : Kind) (c : Cmd) :
+    ∀ e ∈ (propRem cfg now st kind c).2, EffShape cfg c e := by
+  unfold propRem
+  split
+  · rename_i k ms hargs
+    have hk : k ∈ c.args := by rw [hargs]; simp
+    exact remMembers_shape cfg _ kind c k ms _ (lazyExpire_shape cfg now st c k hk)
+  · intro e he; cases he
+
+theorem propSadd_shape (cfg : RedisCfg) (now : Nat) (st : Store) (c : Cmd) :
+    ∀ e ∈ (propSadd cfg now st c).2, EffShape cfg c e := by
+  unfold propSadd
+  split
+  · rename_i k ms hargs
+    have hk : k ∈ c.args := by rw [hargs]; simp
+    have hpre := lazyExpire_shape cfg now st c k hk
+    simp only
+    split
+    · exact hpre
+    · apply ite_snd_forall
+      · intro e he
+        rcases List.mem_append.mp he with h | h
+        · exact hpre e h
+        · rw [List.mem_singleton.mp h]; exact .same
+      · exact hpre
+  · intro e he; cases he
+
+theorem propRestore_shape (cfg : RedisCfg) (now : Nat) (st : Store) (c : Cmd) :
+    ∀ e ∈ (propRestore cfg now st c).2, EffShape cfg c e := by
+  unfold propRestore
+  split
+  · rename_i k t payload opts hargs
+    have hk : k ∈ c.args := by rw [hargs]; simp
+    have hpre := lazyExpire_shape cfg now st c k hk
+    split
+    · intro e he; cases he
+    · simp only
       split
       · exact hpre
       · intro e he
         rcases List.mem_append.mp he with h | h
         · exact hpre e h
-        · rw [List.mem_singleton.mp h]; exact .same
-    · split
-      · -- EXPIRE family
-        unfold propExpire
-        split
-        · rename_i k t hargs
-          have hk : k ∈ c.args := by rw [hargs]; simp
-          have hpre := lazyExpire_shape cfg now st c k hk
+        · rw [List.mem_singleton.mp h]
           split
-          · intro e he; cases he
-          · simp only
-            split
-            · exact hpre
-            · split
-              · intro e he
-                rcases List.mem_append.mp he with h | h
-                · exact hpre e h
-                · rw [List.mem_singleton.mp h]; exact .del k hk
-              · intro e he
-                rcases List.mem_append.mp he with h | h
-                · exact hpre e h
-                · rw [List.mem_singleton.mp h]; exact .pexpireat k _ hk
-        · intro e he
-          rw [List.mem_singleton.mp he]; exact .same
-      · split
-        · -- PERSIST
-          unfold propPersist
-          split
-          · rename_i k hargs
-            have hk : k ∈ c.args := by rw [hargs]; simp
-            have hpre := lazyExpire_shape cfg now st c k hk
-            simp only
-            split
-            · split
-              · intro e he
-                rcases List.mem_append.mp he with h | h
-                · exact hpre e h
-                · rw [List.mem_singleton.mp h]; exact .same
-              · exact hpre
-            · exact hpre
-          · intro e he; cases he
-        · have hadd : ∀ kind members, ∀ e ∈ (propAdd cfg now st kind members c).2, EffShape cfg c e := by
-            intro kind members
-            unfold propAdd
-            split
-            · rename_i k rest hargs
-              have hk : k ∈ c.args := by rw [hargs]; simp
-              have hpre := lazyExpire_shape cfg now st c k hk
-              simp only
-              split
-              · exact hpre
-              · intro e he
-                rcases List.mem_append.mp he with h | h
-                · exact hpre e h
-                · rw [List.mem_singleton.mp h]; exact .same
-            · intro e he; cases he
-          have hrem : ∀ kind, ∀ e ∈ (propRem cfg now st kind c).2, EffShape cfg c e := by
-            intro kind
-            unfold propRem
-            split
-            · rename_i k ms hargs
-              have hk : k ∈ c.args := by rw [hargs]; simp
-              exact remMembers_shape cfg _ kind c k ms _ (lazyExpire_shape cfg now st c k hk)
-            · intro e he; cases he
-          split
-          · exact hadd _ _
-          · split
-            · exact hrem _
-            · split
-              · -- SADD
-                unfold propSadd
-                split
-                · rename_i k ms hargs
-                  have hk : k ∈ c.args := by rw [hargs]; simp
-                  have hpre := lazyExpire_shape cfg now st c k hk
-                  simp only
-                  split
-                  · exact hpre
-                  · split
-                    · intro e he
-                      rcases List.mem_append.mp he with h | h
-                      · exact hpre e h
-                      · rw [List.mem_singleton.mp h]; exact .same
-                    · exact hpre
-                · intro e he; cases he
-              · split
-                · exact hrem _
-                · split
-                  · exact hadd _ _
-                  · split
-                    · exact hrem _
-                    · split
-                      · -- RESTORE
-                        unfold propRestore
-                        split
-                        · rename_i k t payload opts hargs
-                          have hk : k ∈ c.args := by rw [hargs]; simp
-                          have hpre := lazyExpire_shape cfg now st c k hk
-                          split
-                          · intro e he; cases he
-                          · simp only
-                            split
-                            · exact hpre
-                            · intro e he
-                              rcases List.mem_append.mp he with h | h
-                              · exact hpre e h
-                              · rw [List.mem_singleton.mp h]
-                                split
-                                · exact .same
-                                · exact .restoreAbs k t payload opts _ hargs
-                        · intro e he; cases he
-                      · -- anything else
-                        unfold propOther
-                        simp only
-                        intro e he
-                        rcases List.mem_append.mp he with h | h
-                        · refine lazyExpireAll_shape cfg now c _ st ?_ e h
-                          cases hck : commandKeys c.name c.args with
-                          | none => intro k hk; simp at hk
-                          | some ks =>
-                            intro k hk
-                            exact commandKeys_mem c.name c.args ks hck k (by simpa using hk)
-                        · rw [List.mem_singleton.mp h]; exact .same
+          · exact .same
+          · exact .restoreAbs k t payload opts _ hargs
+  · intro e he; cases he
+
+theorem propOther_shape (cfg : RedisCfg) (now : Nat) (st : Store) (c : Cmd) :
+    ∀ e ∈ (propOther cfg now st c).2, EffShape cfg c e := by
+  unfold propOther
+  simp only
+  intro e he
+  rcases List.mem_append.mp he with h | h
+  · refine lazyExpireAll_shape cfg now c _ st ?_ e h
+    cases hck : commandKeys c.name c.args with
+    | none => intro k hk; simp at hk
+    | some ks =>
+      intro k hk
+      exact commandKeys_mem c.name c.args ks hck k (by simpa using hk)
+  · rw [List.mem_singleton.mp h]; exact .same
+
+/-- every command `propagate` emits has one of the shapes of `EffShape` -/
+theorem propagate_shape (cfg : RedisCfg) (now : Nat) (st : Store) (c : Cmd) :
+    ∀ e ∈ (propagate cfg now st c).2, EffShape cfg c e := by
+  rw [propagate_eq]
+  by_cases h1 : (lower c.name == wSet) = true
+  · rw [if_pos h1]; exact propSet_shape cfg now st c
+  rw [if_neg h1]
+  by_cases h2 : (lower c.name == wDel || lower c.name == wUnlink) = true
+  · rw [if_pos h2]; exact propDel_shape cfg now st c
+  rw [if_neg h2]
+  by_cases h3 : (lower c.name == wExpire || lower c.name == wPexpire || lower c.name == wExpireat ||
+      lower c.name == wPexpireat) = true
+  · rw [if_pos h3]; exact propExpire_shape cfg now st _ c
+  rw [if_neg h3]
+  by_cases h4 : (lower c.name == wPersist) = true
+  · rw [if_pos h4]; exact propPersist_shape cfg now st c
+  rw [if_neg h4]
+  by_cases h5 : (lower c.name == wHset || lower c.name == wHmset) = true
+  · rw [if_pos h5]; exact propAdd_shape cfg now st _ _ c
+  rw [if_neg h5]
+  by_cases h6 : (lower c.name == wHdel) = true
+  · rw [if_pos h6]; exact propRem_shape cfg now st _ c
+  rw [if_neg h6]
+  by_cases h7 : (lower c.name == wSadd) = true
+  · rw [if_pos h7]; exact propSadd_shape cfg now st c
+  rw [if_neg h7]
+  by_cases h8 : (lower c.name == wSrem) = true
+  · rw [if_pos h8]; exact propRem_shape cfg now st _ c
+  rw [if_neg h8]
+  by_cases h9 : (lower c.name == wZadd) = true
+  · rw [if_pos h9]; exact propAdd_shape cfg now st _ _ c
+  rw [if_neg h9]
+  by_cases h10 : (lower c.name == wZrem) = true
+  · rw [if_pos h10]; exact propRem_shape cfg now st _ c
+  rw [if_neg h10]
+  by_cases h11 : (lower c.name == wRestore) = true
+  · rw [if_pos h11]; exact propRestore_shape cfg now st c
+  rw [if_neg h11]
+  exact propOther_shape cfg now st c
 
 theorem execCmds_shape (cfg : RedisCfg) (now : Nat) (cs : List Cmd) (st : Store) :
     ∀ e ∈ (execCmds cfg now st cs).2, ∃ c ∈ cs, EffShape cfg c e := by
